@@ -88,6 +88,27 @@ type oneof struct {
 	alts map[string]string // accessor -> discriminator string it is valid for
 }
 
+// OneofAlt reports, for a message type name ("pmetric.Metric") and a field /
+// accessor name, the discriminator field name and the discriminator value the
+// accessor belongs to (ok=false when typ.field is not a one-of alternative).
+func OneofAlt(typ, field string) (discField, discValue string, ok bool) {
+	o, is := oneofs[typ]
+	if !is {
+		return "", "", false
+	}
+	v, is := o.alts[field]
+	return o.disc, v, is
+}
+
+// OneofAlts lists all alternative accessor names of a one-of message type.
+func OneofAlts(typ string) []string {
+	o, is := oneofs[typ]
+	if !is {
+		return nil
+	}
+	return SortedKeys(o.alts)
+}
+
 var oneofs = map[string]oneof{
 	"pmetric.Metric": {"Type", map[string]string{"Gauge": "Gauge", "Sum": "Sum", "Histogram": "Histogram",
 		"ExponentialHistogram": "ExponentialHistogram", "Summary": "Summary"}},
